@@ -172,8 +172,34 @@ def check_num(case):
     return {'nt': len(b) >= 2, 'cls': ['num-bytes', 'num-nonminimal' if S.num_enc(want) != b else 'num-minimal'], 'evals': 2}
 
 
+def check_opn(case):
+    """the small-integer opcode helpers the builder, the iterator and the witness-version logic rest on"""
+    op = case['op']
+    c = CScriptOp(op)
+    small = op == 0 or 0x51 <= op <= 0x60
+    if bool(libx.call('is_small_int', c.is_small_int)[1]) != small:
+        raise Violation('opn/is_small_int', 'CScriptOp(0x%02x).is_small_int() is %s' % (op, not small))
+    r = libx.call('decode_op_n', c.decode_op_n, allowed=(ValueError,))
+    if small:
+        want = 0 if op == 0 else op - 0x50
+        if r[0] != 'ok' or r[1] != want or isinstance(r[1], bool):
+            raise Violation('opn/decode', 'CScriptOp(0x%02x).decode_op_n() = %r expected %d' % (op, r[1], want))
+        e = libx.call('encode_op_n', CScriptOp.encode_op_n, want)[1]
+        if int(e) != op:
+            raise Violation('opn/encode', 'CScriptOp.encode_op_n(%d) = 0x%02x expected 0x%02x' % (want, int(e), op))
+    elif r[0] == 'ok':
+        raise Violation('opn/decode-accepts', 'CScriptOp(0x%02x).decode_op_n() returned %r for an opcode that is not OP_0..OP_16' % (op, r[1]))
+    if op in (0x4f, 0x61, 0x11, 0xff):       # integers outside 0..16 have no small-integer opcode
+        for bad in (-1, 17, 0x51, 256):
+            if libx.call('encode_op_n', CScriptOp.encode_op_n, bad, allowed=(ValueError,))[0] == 'ok':
+                raise Violation('opn/encode-accepts', 'CScriptOp.encode_op_n(%d) returned an opcode' % bad)
+    return {'nt': True, 'cls': ['opn-small' if small else 'opn-other'], 'evals': 3}
+
+
 def check_case(case):
     k = case['kind']
+    if k == 'opn':
+        return check_opn(case)
     if k == 'build':
         return check_build(case)
     if k == 'raw':
@@ -362,6 +388,9 @@ def t_templates(ctx):
                 body = bytes((h + n + i) % 256 for i in range(max(n + delta, 0)))
                 ctx.run({'kind': 'raw', 'script': (bytes([h, n]) + body).hex()})
     if ctx.shard == 0:
+        for op in range(256):
+            ctx.run({'kind': 'opn', 'op': op})
+        ctx.exhaustive.append('is_small_int / decode_op_n / encode_op_n for all 256 opcode values')
         for n in range(0, 0x4f):
             for tail in (b'\x87', b'\x88', b''):
                 ctx.run({'kind': 'raw', 'script': (b'\xa9' + bytes([n]) + bytes(n) + tail).hex()})        # HASH160 <n> EQUAL
